@@ -20,7 +20,7 @@ func init() {
 		ID:    "C16",
 		Title: "VAlign / PackRight identities",
 		Count: counts(20000, 250000),
-		Rule: "connected graphs from F1, F8, F9, F11, F2 (cycles) x heterogeneous widths incl. 0 x NodeSpacing >= 0 x LayerSpacing > 0 x {valign, packright}, helper nodes in the output; oracle per band " +
+		Rule: "connected graphs from F1, F8, F9, F11, F2 (cycles) x heterogeneous widths incl. 0 x NodeSpacing >= 0 x LayerSpacing > 0 x {valign, packright} x ordering {wmedian, 1/8 noop}, an eighth with node names V1..Vk, helper nodes in the output; oracle per band " +
 			"(helper nodes included): extent = sum of widths + (k-1)*NodeSpacing, every neighbour gap = NodeSpacing, leftmost x overall = 0, valign: all band midpoints equal, packright: all right ends equal; " +
 			"exact comparison for dyadic inputs, 1e-9 relative for decimal ones; non-trivial = >= 3 bands with pairwise different total widths",
 		MinNontrivial: counts(5000, 60000),
@@ -48,8 +48,18 @@ func init() {
 			}
 			g = gen.Connect(r, g, acyclic)
 			c.Family, c.Edges = g.Family, gen.Names(g)
+			if r.Intn(8) == 0 {
+				// node names are opaque: an eighth of the cases uses the names autog mints for its own helper nodes
+				m := map[string]string{}
+				for i, p := range r.Perm(len(nodeIDs(c.Edges))) {
+					m[nodeIDs(c.Edges)[i]] = fmt.Sprintf("V%d", p+1)
+				}
+				c.Edges = renameEdges(c.Edges, m)
+				c.Family += "+V-names"
+			}
 			ids := nodeIDs(c.Edges)
 			var o core.Opts
+			o.NoOrdering = r.Intn(8) == 0 // the documented no-op ordering phase: the positioners must not depend on what phase 3 writes
 			o.Breaker = r.Intn(3)
 			if o.Breaker == 1 {
 				o.GreedySeed = r.Int63()
@@ -392,6 +402,17 @@ func init() {
 				o := fastCell(r, 9, true)
 				if r.Intn(3) == 0 {
 					o.Router = 3 // splines log the most events
+				}
+				if r.Intn(2) == 0 && len(st.Graph) > 0 && len(st.Graph[len(st.Graph)-1]) == 2 {
+					regime := "dyadic"
+					if o.Positioner == 3 {
+						regime = "integer"
+					}
+					heteroSizes(r, &o, nodeIDs(st.Graph), regime, 200, 0.05)
+					if r.Intn(2) == 0 {
+						o.NodeSpacing = spacingVal(r, regime, true)
+					}
+					capNS(&o)
 				}
 				st.Opts = o
 				switch r.Intn(5) {
